@@ -16,7 +16,7 @@ def c06Expected (kind : String) (data : Obj) : Option Str :=
 def c06Op (args : List String) : String :=
   match run pRenderCase args with
   | some (c, []) =>
-    let env : Env := { partials := c.partials, filters := baseFilters }
+    let env : Env := Env.ofList c.partials baseFilters
     let r := renderTop defaultFuel env c.tmpl c.data
     let bucket := (c.kind.splitOn ":").headD ""
     -- spec 1: structured expectation
